@@ -30,6 +30,28 @@ def _guard(c, name, n, seed=None, corr=G_CORR, replay=None, stream=0):
                          "different creations, every table operation attempted with a stale and a current identifier)"})
 
 
+# fan-out of RouteNodeDown / RouteTerminate* with consumers that cannot take the message (netfail fan):
+# 10-40 watchers per two-node scenario, a few of them zombies / bounded mailboxes with full queues /
+# killed at the moment of the loss; model and theorems in NetFail/Fanout*.v
+F_IMPORTS = ("From Ergo Require Import Common.Base Rel.Amap Rel.Model Rel.Cases NetFail.Model NetFail.Cases NetFail.Fanout NetFail.FanoutCases.\n"
+             "Local Open Scope N_scope.")
+F_CORR = ["corr_fan"]
+F_SPEC = ["spec_fan"]
+F_PREMISE = ["premise_fan"]
+
+
+def _fan(c, name, n, seed=None, corr=F_CORR, replay=None, stream=0):
+    env = {"VERIF_SEED": str(seed)} if seed is not None else None
+    args = ["fan", "-replay", replay] if replay else ["fan", "-n", str(n), "-stream", str(stream)]
+    out = c.harness("netfail", args, timeout=900, env=env)
+    if not out:
+        return
+    c.cases(name, out, F_IMPORTS, "fcase", corr=list(corr), spec=F_SPEC, premise=F_PREMISE)
+    if not replay and c.cov["correspondence"].get(name, {}).get("nontrivial", 0) == 0 and not c.violations:
+        c.broken.append({"kind": "coverage", "what": "no fan case reached the situation of the theorems (a failing delivery while "
+                         "at least five able watchers are owed a notification)"})
+
+
 # LinkNode / MonitorNode against unregisterConnection (connections.Delete, RouteNodeDown): every
 # interleaving on two real nodes, model and theorems in the Rel race family (Rel/NodeRace*.v,
 # C04_node_race_exactly_one); harness `rel ilvnode`
@@ -104,6 +126,10 @@ def run(c):
         c.broken.append({"kind": "proof", "what": "Coq build of theories/NetFail/Cases.v failed", "detail": log[-2500:]})
     n = 140 if c.tier == "quick" else 1600
     ng = 12 if c.tier == "quick" else 96
+    nf = 16 if c.tier == "quick" else 160
+    if c.replay and _replay_kind(c.replay) == "fan":
+        _fan(c, "fan", 1, replay=c.replay)
+        return
     if c.replay and _replay_kind(c.replay) == "guard":
         _guard(c, "guard", 1, replay=c.replay)
         return
@@ -112,6 +138,14 @@ def run(c):
         return
     if not c.replay:
         _node_race(c)
+        if c.violations:
+            return
+    if not c.replay:
+        _fan(c, "fan", nf)
+        if c.broken and not c.violations:
+            keep = list(c.broken)
+            _fan(c, "fan-search", nf * 4, seed=c.seed + 7919, corr=(), stream=1)
+            c.broken = keep + [b for b in c.broken if b not in keep]
         if c.violations:
             return
     _guard(c, "guard", ng)
@@ -128,7 +162,9 @@ def run(c):
         _run(c, "hist-search", n * 6 if c.tier == "quick" else n * 2, seed=c.seed + 7919, corr=())
         c.broken = keep + [b for b in c.broken if b not in keep]
     c.cov["rule"] = ("distinct = different Coq case term (history with observed results, mailboxes of the observers, calls); "
-                     "non-trivial = a connection was lost while a confirmed relation was held and a notification was owed")
+                     "non-trivial = a connection was lost while a confirmed relation was held and a notification was owed; "
+                     "fan: non-trivial = the hypotheses of C14_node_down_fan_exact hold on the case (NoDup relations, the groups are a permutation of CleanupNode's report, "
+                     "every healthy watcher is [able]), at least one delivery fails and at least five able watchers are owed a notification")
     c.assumptions += [
         "two real nodes in one process over loopback TCP (optionally through a cutting TCP proxy with one pooled link); "
         "node A is described from its own point of view: the answers of the peer to link/monitor requests (nil / error / none) "
@@ -151,6 +187,16 @@ def run(c):
         "a response written for a stale (pid, ref) pair would be dropped by the twin unless it is waiting for a response itself: for SendResponse / SendResponseError "
         "the observation is the returned error and the frame counter, not the twin's mailbox",
         "the race between the answer to a link/monitor request and the loss of the connection inside RouteLink* (relation inserted after CleanupNode ran) is outside the model: operations are atomic with respect to node-down",
+        "fan-out with failing deliveries (netfail fan, NetFail/Fanout*.v): the ways ONE delivery fails are transcribed from sendExitMessage / RouteSendPID "
+        "(not in n.processes; isAlive() false, down messages only; bounded queue full) with Fallback.Enable == false — a process with a fallback name is not modelled; "
+        "the watchers' state at the moment of the fan-out is set up by the harness and checked before the loss (ProcessState == Zombee; a second filler send answers "
+        "ErrProcessMailboxFull), free slots of a bounded queue = MailboxSize 1 minus the fillers; blocked watchers stay blocked until every healthy watcher has its messages",
+        "fan: a watcher killed (idle) at the very moment of the loss may or may not get its messages (class 3): it is only required to get nothing twice and nothing it is not owed; "
+        "the window inside unregisterProcess (ErrProcessUnknown) is reached only by chance through that class",
+        "fan: for a bounded watcher whose queue has fewer free slots than messages addressed to it WHICH of them fit depends on the iteration order of the Go maps: "
+        "model and implementation are compared on the number of exits and of downs it handled, each handled message must be one it is owed, none twice",
+        "fan: healthy watchers are awaited by exact counts (10 s deadline per phase), then 250 ms are left for duplicates; exits for name / alias / event / node targets "
+        "are sent by the core pid (trapped by act.Actor because they are not MessageExitPID)",
         "LinkNode / MonitorNode against the loss of the connection IS covered for all interleavings (Rel/NodeRace*.v, theorem C04_node_race_exactly_one, "
         "runs 'ilvnode': both threads parked at the target manager calls on two real nodes; a lookup without connection fails because the static route is removed)",
     ]
